@@ -619,25 +619,47 @@ impl Model {
         let len = self.request_len(op, pubrel);
         if let Some(mx) = self.m {
             let mut refused = len as u64 > mx as u64;
-            if !pubrel && matches!(self.ops[op].spec, OpSpec::Subscribe(_)) {
-                if self.sub_len_exact {
-                    self.sub_len_exact = false;
-                } else {
-                    // The packet carries a subscription identifier of the library's choosing, 1-4
-                    // bytes long on the wire. Outside that window the outcome is prescribed; inside
-                    // it both are legitimate and the implementation's answer is followed (a packet
-                    // that is written is still measured against M when it appears on the wire).
-                    let lo = self.subscribe_len(op, 1) as u64;
-                    let hi = self.subscribe_len(op, 268_435_455) as u64;
-                    refused = if lo > mx as u64 {
-                        true
-                    } else if hi <= mx as u64 {
-                        false
-                    } else {
-                        self.hit("subscribe-length-open");
-                        self.observed_size_refusals.contains(&op)
-                    };
+            // Packets whose length the standard does not fix, because the library has a choice:
+            //  * SUBSCRIBE carries a subscription identifier of the library's choosing, 1-4 bytes;
+            //  * PUBREL may be written short (4 bytes) or with reason code and property length (5, 6);
+            //  * a DISCONNECT without properties may be written as E0 00 (reason 0), E0 01 rr, or in
+            //    full (4 bytes).
+            // Outside the window the outcome is prescribed; inside it both outcomes are legitimate and
+            // the implementation's answer is followed (whatever is written is still measured against M
+            // when it appears on the wire).
+            let window: Option<(u64, u64)> = if pubrel {
+                Some((4, 6))
+            } else {
+                match &self.ops[op].spec {
+                    OpSpec::Subscribe(_) => {
+                        if self.sub_len_exact {
+                            self.sub_len_exact = false;
+                            None
+                        } else {
+                            Some((
+                                self.subscribe_len(op, 1) as u64,
+                                self.subscribe_len(op, 268_435_455) as u64,
+                            ))
+                        }
+                    }
+                    OpSpec::Disconnect(d)
+                        if d.session_expiry.is_none() && d.reason_string.is_none() && d.user_props.is_empty() =>
+                    {
+                        let lo = if d.reason.unwrap_or(0) == 0 { 2 } else { 3 };
+                        Some((lo, len as u64))
+                    }
+                    _ => None,
                 }
+            };
+            if let Some((lo, hi)) = window {
+                refused = if lo > mx as u64 {
+                    true
+                } else if hi <= mx as u64 {
+                    false
+                } else {
+                    self.hit("request-length-open");
+                    self.observed_size_refusals.contains(&op)
+                };
             }
             if refused {
                 self.complete(
